@@ -231,43 +231,51 @@ def check_proofs(ctx, extra_props=()):
     ok_all = True
     with Lock("coq"):
         coq_prepare()
+        # pass 1: the cones of all the property files of this check (dependencies may print their own Print
+        # Assumptions output); pass 2: the property files alone, one after the other (-j1), so that the result blocks
+        # between two `COQC` lines are exactly those of one file, in the order of its commands
+        present = []
         for prop in props:
             vfile = "theories/Properties/%s.v" % prop
-            src = os.path.join(COQ, vfile)
-            if not os.path.exists(src):
+            if not os.path.exists(os.path.join(COQ, vfile)):
                 ctx.obligations.append((prop, False, "missing " + vfile))
                 ok_all = False
-                continue
-            names = re.findall(r"^\s*Theorem\s+([A-Za-z0-9_']+)", open(src).read(), re.M)
-            # force re-check of the property file itself
-            for ext in (".vo", ".glob", ".vos", ".vok"):
-                try:
-                    os.remove(os.path.join(COQ, vfile[:-2] + ext))
-                except OSError:
-                    pass
-            t = 3000 if ctx.thorough else 1500
-            # first the cone (dependencies may print their own Print Assumptions output), then the property file
-            # alone, so that the blocks read below are exactly those of THIS file, in the order of its commands
-            rc, out = sh("make -j%d %so" % (NCPU, vfile), cwd=COQ, timeout=t)
-            if rc == 0:
+            else:
+                present.append((prop, vfile))
+        t = 3000 if ctx.thorough else 1500
+        targets = " ".join(v + "o" for _, v in present)
+        rc, out = sh("make -j%d %s" % (NCPU, targets), cwd=COQ, timeout=t) if present else (0, "")
+        segs = {}
+        if rc == 0 and present:
+            for _, vfile in present:
                 for ext in (".vo", ".glob", ".vos", ".vok"):
                     try:
                         os.remove(os.path.join(COQ, vfile[:-2] + ext))
                     except OSError:
                         pass
-                rc, out = sh("make -j%d %so" % (NCPU, vfile), cwd=COQ, timeout=t)
-                compiled = re.findall(r"^COQC\s+(\S+)", out, re.M)
-                if rc == 0 and compiled != [vfile]:
-                    rc, out = 1, "expected to compile only %s in the second pass, compiled %s\n%s" % (vfile, compiled, out[-2000:])
+            rc, out = sh("make -j1 %s" % targets, cwd=COQ, timeout=t)
+            cur = None
+            for line in out.splitlines(True):
+                m = re.match(r"^COQC\s+(\S+)", line)
+                if m:
+                    cur = m.group(1)
+                    segs[cur] = ""
+                elif cur is not None:
+                    segs[cur] += line
+            if rc == 0 and sorted(segs) != sorted(v for _, v in present):
+                rc, out = 1, "expected to compile exactly %s in the second pass, compiled %s\n%s" % ([v for _, v in present], sorted(segs), out[-2000:])
+        for prop, vfile in present:
+            src = os.path.join(COQ, vfile)
+            names = re.findall(r"^\s*Theorem\s+([A-Za-z0-9_']+)", open(src).read(), re.M)
             if rc != 0:
-                ctx.log("coq build failed for %s:\n%s" % (prop, out[-3000:]))
+                ctx.log("coq build failed (%s):\n%s" % (prop, out[-3000:]))
                 for n in names or [prop]:
                     ctx.obligations.append((n, False, "build failed"))
                 ok_all = False
                 continue
-            # Print Assumptions output, in order of the Print commands
+            # Print Assumptions output of THIS file, in order of its Print commands
             asked = re.findall(r"^\s*Print Assumptions\s+([A-Za-z0-9_'.]+)\s*\.", open(src).read(), re.M)
-            blocks = re.split(r"(?=Closed under the global context|Axioms:|Section Variables:)", out)
+            blocks = re.split(r"(?=Closed under the global context|Axioms:|Section Variables:)", segs.get(vfile, ""))
             blocks = [b for b in blocks if b.startswith(("Closed", "Axioms:", "Section Variables:"))]
             res = {}
             if len(blocks) != len(asked):
